@@ -875,6 +875,15 @@ func (c *Ctx) c20Encode(s *SuiteStat, g *Gen, sx *Sx, idx int) {
 		m2 := buildMsg(sx)
 		orig := append(message.IKEPayloadContainer{}, m2.Payloads...)
 		origR := renderPayloads(orig).String()
+		// the caller's own view of the container it handed to the message (same backing array, own slice header), and a
+		// second message over the same container: protecting m2 is not allowed to reach either
+		shared := m2.Payloads
+		var sibling *message.IKEMessage
+		var siblingEnc callRes
+		if len(shared) > 0 {
+			sibling = &message.IKEMessage{IKEHeader: &message.IKEHeader{InitiatorSPI: 1, ResponderSPI: 2, MajorVersion: 2, ExchangeType: 35}, Payloads: shared}
+			siblingEnc = encodeMsgRes(sibling)
+		}
 		hdrR := renderHeader(m2.IKEHeader).String()
 		prole := message.Role(idx%8 == 0)
 		p, _ := protect(c20SAs[si], m2, prole, g.keyBytesRandom(32), -1)
@@ -896,6 +905,18 @@ func (c *Ctx) c20Encode(s *SuiteStat, g *Gen, sx *Sx, idx int) {
 		if a := renderHeader(m2.IKEHeader).String(); a != hdrR {
 			c.violate(Violation{Suite: s.Name, Kind: "property", Index: idx, Class: "protect-effect", Desc: "protect altered header fields", Input: line, Expected: hdrR, Actual: a})
 			return
+		}
+		if a := renderPayloads(shared).String(); a != origR {
+			c.violate(Violation{Suite: s.Name, Kind: "property", Index: idx, Class: "protect-effect",
+				Desc: "protect altered the container the caller still holds (same backing array as the message's former payload list)", Input: line, Expected: clip(origR), Actual: clip(a)})
+			return
+		}
+		if sibling != nil {
+			if e := encodeMsgRes(sibling); e != siblingEnc {
+				c.violate(Violation{Suite: s.Name, Kind: "property", Index: idx, Class: "protect-effect",
+					Desc: "protecting one message changed the encoding of ANOTHER message built over the same payload container", Input: line, Expected: clip(siblingEnc.String()), Actual: clip(e.String())})
+				return
+			}
 		}
 		if a := renderPayloads(orig).String(); a != origR {
 			c.violate(Violation{Suite: s.Name, Kind: "property", Index: idx, Class: "protect-effect", Desc: "protect altered the original payload objects", Input: line, Expected: clip(origR), Actual: clip(a)})
